@@ -207,6 +207,23 @@ Theorem C20_recombinations_within_set : forall gr rr pr er o ids vs cs out lines
 Proof. exact recombinations_within_set. Qed.
 Print Assumptions C20_recombinations_within_set.
 
+(* ================================================================ the evaluators used on the real files *)
+(* The boolean predicates that the correspondence check evaluates on the implementation's own files (level L1)
+   accept the lists of every completed well-formed run of the model, under every rule: they demand nothing
+   beyond the two theorems above. *)
+Theorem C20_spec_rec_sound_accepts_model : forall gr rr pr er o ids vs cs out,
+  run gr rr pr er o ids vs cs = Some out -> run_wf ids cs = true -> o_recs o = true ->
+  out_recs out <> None ->
+  spec_rec_sound cs (obs_of_out out) = true.
+Proof. exact model_passes_spec_rec_sound. Qed.
+Print Assumptions C20_spec_rec_sound_accepts_model.
+
+Theorem C20_spec_read_sound_accepts_model : forall gr rr pr er o ids vs cs out,
+  run gr rr pr er o ids vs cs = Some out -> run_wf ids cs = true -> o_reads o = true ->
+  spec_read_sound ids cs (obs_of_out out) = true.
+Proof. exact model_passes_spec_read_sound. Qed.
+Print Assumptions C20_spec_read_sound_accepts_model.
+
 (* ================================================================ the run completes *)
 (* With recombination-cost vectors as long as the position lists (and components within the accessible
    positions) write_recombination_list never fails on an instance. *)
@@ -304,3 +321,11 @@ Example C20_example_empty_family_repaired :
   exists out, run_repaired (mkOpts true true true) wit_ids wit_samples wit_empty_cs = Some out /\
     out_recs out = Some [Header].
 Proof. eexists; split; vm_compute; reflexivity. Qed.
+
+(* hypotheses of C20_recombination_entries_total_repaired: a family without accessible position *)
+Example C20_example_total_repaired :
+  length (i_tv wit_empty_inst) = length (i_positions wit_empty_inst) /\
+  length (i_costs wit_empty_inst) = Nat.max 1 (length (i_positions wit_empty_inst)) /\
+  inst_rec_entries EmptyOk 10 wit_empty_inst = Some [] /\
+  inst_rec_entries Strict 10 wit_empty_inst = None.
+Proof. vm_compute; auto. Qed.
